@@ -68,7 +68,7 @@ def run(chk, tier):
                 g.feat |= {"tup", "fun", "coll", "list", "gen", "filt", "for", "adt", "kwd", "strop", "str", "where", "pfor", "bits"}
             progs.append(g.program("h%d_%d" % (k, i)))
         if k == 0:      # collect forms over generators
-            progs += progen.generator_collect_family((chk.seed + 19) % 1000003, 8 if tier == "quick" else 120)
+            progs += progen.generator_collect_family((chk.seed + 19) % 1000003, 8 if tier == "quick" else 120, with_try=False)
         fam = progcheck.Family(chk, progs, "gen%d" % k, workers=vlib.NCPU, timeout=1500)
         for s, c in fam.status_count.items():
             per[s] = per.get(s, 0) + c
